@@ -90,9 +90,17 @@ def algebra_jobs(rng, n):
     for _ in range(n):
         m = imat(rng)
         det = m[0] * m[3] - m[1] * m[2]
-        inv = Affine2D(*m).inverse()
-        r = exact([v * abs(det) for v in inv]) if det else [0] * 6
-        recs.append({"kind": "inv", "m": m + [1], "det": det, "r": r if r else [0] * 6})
+        # the same integer matrix at several magnitudes (m / k): non-degenerate however small
+        k = rng.choice([1, 1, 10, 1000, 100000])
+        inv = Affine2D(*[v / k for v in m]).inverse()
+        # exact inverse = (k adj(A) / det, -adj(A) T / det): inverse x |det| is integral
+        r = None
+        if det:
+            sc = [v * abs(det) for v in inv]
+            r = [int(round(v)) for v in sc]
+            if any(abs(v - w) > 1e-6 * max(1.0, abs(w)) for v, w in zip(sc, r)):
+                r = None
+        recs.append({"kind": "inv", "m": m + [k], "det": det, "r": r if r else [0] * 6})
     return recs
 
 
@@ -142,8 +150,14 @@ def rt_jobs(rng, n):
     pool = [0, 1, -1, 2, 0.5, -2.5, 10, 0.25, 3, 100, -0.125, 1.5]
     for _ in range(n):
         vals = [rng.choice(pool) for _ in range(6)]
-        if rng.random() < 0.3:
+        u = rng.random()
+        if u < 0.3:
             vals[:4] = [1, 0, 0, 1]
+        elif u < 0.55:
+            # nearly a translation: unit diagonal with one or two shear entries
+            vals[0], vals[3] = 1, 1
+            vals[1] = rng.choice([0, 0, 0.5, -2.5, 3])
+            vals[2] = rng.choice([0, 0, 0.25, -1, 2])
         m = Affine2D(*vals)
         s = m.tostring()
         rec = {"kind": "rt", "m": [int(v * 1000) for v in vals] + [1000], "s": list(s)}
